@@ -3,6 +3,7 @@ import math
 from fractions import Fraction
 from vlib import common
 from checks import crcommon as cr
+from checks import c18
 from checks import c03
 
 LEVEL = "proof"
@@ -13,6 +14,17 @@ def job_ops(job, plan):
     rng = common.Rng(job["seed"])
     sizes = cr.gen_sizes(rng, plan)
     ops = [cr.create_line(job["cfg"]), "limit %d" % job["N"], "delay"]
+    if not job.get("blocks") and rng.chance(.2):
+        # the pull API: the same relation at every point, `frames_not_yet_supplied` being what the input function still has
+        # (registered with max_ilen 0 = unlimited, as the library's own libsamplerate binding does, or with a bound)
+        ops.append("setfn %d" % rng.choice([0, 0, 64, 1000, 7]))
+        pat = rng.choice([["d1000000"], ["d%d" % (1 + rng.below(3000)) for _ in range(8)], ["d7", "d1", "d4096"]])
+        est = int(job["N"] / cr.io_ratio(job["cfg"])) + 10
+        ol = max(rng.choice([1, 5, 64, 1000, 4096, est]), est // 150 + 1)
+        for i in range(est // ol + 4):
+            ops += ["pull %d %s" % (ol, " ".join(pat)), "delay"]
+        ops += ["pull 100 %s" % " ".join(pat), "delay", "hash"]
+        return ops
     if rng.chance(.35):
         ops.append("stale %d" % rng.choice([1, 37, 300, 100000]))
     ops.append("eoistyle %d" % rng.below(6))   # how end-of-input is said and how the drain calls look (harness/cr/trace.c after_end)
@@ -50,6 +62,7 @@ def oracle(job, tr):
     drained = False
     npoints = 0
     cur = None
+    pull_ans = None
     for l in tr.lines:
         if l.startswith("> cr.proc"):
             t = l.split(); olen = int(t[6]); cur = t
@@ -57,11 +70,21 @@ def oracle(job, tr):
                 flushed = True
         elif l.startswith("> cr.eoi"):                            # end-of-input by a call without buffers
             flushed = True; olen = 0; cur = None
+        elif l.startswith("> cr.pull"):                           # answers of the input function in this call: all but the two look-ahead tokens
+            t = l.split(); olen = int(t[2]); cur = None
+            pull_ans = c18.expand(t[3:])[:-2] if len(t) > 3 else []
         elif l.startswith("> cr.clear"):
             cleared = True; fed = out = 0; flushed = False
         elif l.startswith("< R "):
             r = cr.parse_kv(l)
             fed += int(r["id"]); out += int(r["od"])
+            if pull_ans is not None:
+                for a in pull_ans[:int(r.get("used", 0))]:
+                    if a in ("e", "f"):
+                        flushed = True
+                    else:
+                        fed += int(a[1:])
+                pull_ans = None
             if cr.marked_whole(cur, r):
                 flushed = True
             if flushed and olen > 0 and int(r["od"]) == 0:
